@@ -5,7 +5,7 @@
 # Output: one summary line per step; full check output in /tmp/mut-eval/<PROP>.<V>.<check>.log
 set -u
 P=$1; V=$2; shift 2
-OUT=/tmp/mut-out/$P; LOG=/tmp/mut-eval; mkdir -p $LOG
+OUT=${MUT_OUT:-/tmp/mut-out}/$P; LOG=${MUT_LOG:-/tmp/mut-eval}; mkdir -p $LOG
 export GOFLAGS=-mod=mod GOPROXY=off GOSUMDB=off GOTOOLCHAIN=local
 PATCH=$OUT/$V.patch.diff
 [ -f "$PATCH" ] || { echo "no patch $PATCH"; exit 2; }
@@ -30,7 +30,7 @@ fi
 git -C /repo diff --quiet || { echo "/repo not clean"; exit 2; }
 git -C /repo apply "$PATCH" || { echo "APPLY-FAILED $P.$V"; exit 2; }
 for C in "$@"; do
-  VERIF_DIR=/tmp/mut-eval/vd /verif/check $C --tier quick > $LOG/$P.$V.$C.log 2>&1; E=$?
+  VERIF_DIR=${MUT_VD:-/tmp/mut-eval/vd} /verif/check $C --tier quick > $LOG/$P.$V.$C.log 2>&1; E=$?
   echo "CHECK $P.$V $C exit=$E $(grep -c '^VIOLATION' $LOG/$P.$V.$C.log) violations: $(grep -A1 '^VIOLATION' $LOG/$P.$V.$C.log | grep '^  ' | head -4 | tr '\n' ' ' | cut -c1-300)"
 done
 git -C /repo checkout -- . && git -C /repo status --short | head -3
